@@ -28,6 +28,7 @@ LEVEL_NOTE = 'Values from a seeded alphabet; domain (A,B,C) with sizes (2,3,2); 
 ASSUMPTIONS = ['RDA/IG store log(mu + 1e-100); 1e-100 is not counted as mass']
 
 ITERS = [1, 2, 3, 10, 50]
+LAST_DEGENERATE = False
 TOTALS = [1.0, 37.5, None]
 
 
@@ -54,6 +55,13 @@ def coherence_failures(model, attrs, sizes, maxlen=2, tol_r=1e-7, tol_a=1e-9):
     joint = O.explicit_joint(attrs, sizes, [(tuple(pots[cl].domain.attrs), pots[cl].values) for cl in model.cliques], T)
     if joint is None:
         return [('no-finite-cell', 'stored parameters give no cell a finite potential')]
+    # float resolution of the exponents: parameters of magnitude S cannot give answers more accurate than ~eps*S
+    # (boundary optima drive the parameters to 1e6..1e8 within 50 iterations); the slack is capped at 1e-6
+    allv = np.concatenate([np.asarray(pots[cl].values, dtype=float).flatten() for cl in model.cliques])
+    fin = allv[np.isfinite(allv)]
+    Smag = float(np.abs(fin).max()) if fin.size else 0.0
+    slack = min(1e-6, 32 * 2.2e-16 * Smag)
+    tol_r, tol_a = tol_r + slack, tol_a + slack
     if hasattr(model, 'marginals'):
         bp = model.belief_propagation(model.potentials)
         for cl in model.cliques:
@@ -75,7 +83,7 @@ def coherence_failures(model, attrs, sizes, maxlen=2, tol_r=1e-7, tol_a=1e-9):
             continue
         if v.min() < -1e-12 * T:
             fails.append(('negative', 'project(%r) has a negative entry %.3g' % (t, v.min())))
-        if abs(v.sum() - T) > 1e-9 * T:
+        if abs(v.sum() - T) > tol_a * T:
             fails.append(('sum', 'project(%r) sums to %.12g, total %.12g' % (t, v.sum(), T)))
         if not O.close(v, ref, tol_r, tol_a * T):
             fails.append(('answer-vs-joint', 'project(%r) differs from the joint of the stored parameters by %.3g (total %g): in-clique and out-of-clique answers disagree' % (t, O.maxdiff(v, ref), T)))
@@ -94,6 +102,10 @@ def run_one(si, total, engine, iters, zero, kind, seed):
     if zero and struct:
         cl = max(struct, key=len)
         zeros = {tuple(cl): [tuple([0] * len(cl))]}
+    # degenerate input: the zero leaves ONE live cell in its clique and nothing else is measured, so the loss
+    # is constant in the parameters (see known finding F13)
+    global LAST_DEGENERATE
+    LAST_DEGENERATE = bool(zeros) and int(np.prod([sizes[attrs.index(a)] for a in cl])) == 2 and all(set(c) <= set(cl) for c in struct)
     eng = FactoredInference(Domain(attrs, sizes), iters=iters, structural_zeros=zeros)
     with M.quiet():
         model = eng.estimate(prob.fresh_measurements(), total=total, engine=engine)
@@ -118,7 +130,7 @@ def run_job(job):
         acc.case(dict(case, struct=struct), nontrivial=len(struct) >= 2)
         acc.outcome('%s:%s' % (engine, 'ok' if not fails else 'FAIL'))
         for kd in sorted({k for k, _ in fails}):
-            acc.violate(dict(case, struct=[list(c) for c in struct]), {'kind': kd, 'engine': engine, 'empty': len(struct) == 0},
+            acc.violate(dict(case, struct=[list(c) for c in struct]), {'kind': kd, 'engine': engine, 'empty': len(struct) == 0, 'loss_constant_single_live_cell': LAST_DEGENERATE},
                         'structure %r %s: %s' % (struct, case, '; '.join(m for k, m in fails if k == kd)[:600]))
     acc.sample(dict(case, struct=[list(c) for c in struct]))
     return acc
